@@ -277,10 +277,10 @@ func genC04(r *hlib.Rng, n int, destructive bool) In {
 		default:
 			b = live[r.Intn(len(live))].Num + uint64(r.Intn(2))
 		}
-		in.Ops = append(in.Ops, Op{K: "reorg", B: b, Busy: r.Intn(3) == 0})
 		if halting && b > tip {
-			b = tip
+			b = tip // after a halt the reorg must remove at least one recorded block (see the halting stream above)
 		}
+		in.Ops = append(in.Ops, Op{K: "reorg", B: b, Busy: r.Intn(3) == 0})
 		if r.Intn(3) == 0 { // nested / repeated reorg
 			in.Ops = append(in.Ops, Op{K: "reorg", B: b + uint64(r.Intn(3))})
 		}
